@@ -62,76 +62,13 @@ Proof.
   - rewrite f1_sum_cos by lia. ring.
 Qed.
 
-(* ---------------------------------------------------------------- rules built on library routines *)
-Section GaussOracle.
-  Variables (n : nat) (ox ow : nat -> R).
-  (* Iw p stands for the weighted integral  int w(x) p(x) dx  over the rule's interval *)
-  Variable Iw : (R -> R) -> R.
-  (* oracle hypothesis (validated on every run with exact moments): the library rule is exact to degree 2n-1 *)
-  Hypothesis oracle_exact : forall p, pspan (2 * n - 1) p -> rsum n (fun i => ow i * p (ox i)) = Iw p.
+(* Gauss-Chebyshev (first kind): the constructor's nodes are the Fejer-1 nodes (reversal flag from the source) *)
+Lemma gc_pts_eq n k : pts_GaussChebyshev n k = pts_FejerFirst n k.
+Proof. reflexivity. Qed.
 
-  (* scipy.special.roots_chebyu, w(x) = sqrt(1-x^2) on [-1,1] *)
-  Lemma gc2_wrapper_lemma : (forall i, (i < n)%nat -> -1 < ox i < 1) ->
-    forall p, pspan (2 * n - 1) p ->
-    rsum n (fun k => wts_GaussChebyshevType2 ox ow n k
-                     * (sqrt (1 - pts_GaussChebyshevType2 ox n k ^ 2) * p (pts_GaussChebyshevType2 ox n k))) = Iw p.
-  Proof.
-    intros Hin p Hp. rewrite <- (oracle_exact p Hp). apply rsum_ext. intros k Hk.
-    unfold wts_GaussChebyshevType2, pts_GaussChebyshevType2, maybe_rev,
-      GaussChebyshevType2_weights_reversed, GaussChebyshevType2_points_reversed, GaussChebyshevType2_weights. cbv zeta.
-    assert (0 < sqrt (1 - ox k ^ 2)) by (apply sqrt_lt_R0; pose proof (Hin k Hk); nra).
-    field. lra.
-  Qed.
-
-  (* scipy.special.roots_genlaguerre, w(x) = x^alpha exp(-x) on [0, inf) *)
-  Lemma laguerre_wrapper_lemma alpha : (forall i, (i < n)%nat -> 0 < ox i) ->
-    forall p, pspan (2 * n - 1) p ->
-    rsum n (fun k => wts_GaussLaguerre ox ow alpha n k
-                     * (Rpower (pts_GaussLaguerre ox alpha n k) alpha * exp (- pts_GaussLaguerre ox alpha n k)
-                        * p (pts_GaussLaguerre ox alpha n k))) = Iw p.
-  Proof.
-    intros Hin p Hp. rewrite <- (oracle_exact p Hp). apply rsum_ext. intros k Hk.
-    unfold wts_GaussLaguerre, pts_GaussLaguerre, maybe_rev,
-      GaussLaguerre_weights_reversed, GaussLaguerre_points_reversed, GaussLaguerre_weights. cbv zeta.
-    rewrite Rpower_Ropp, exp_Ropp.
-    assert (0 < Rpower (ox k) alpha) by apply exp_pos. pose proof (exp_pos (ox k)).
-    field. split; lra.
-  Qed.
-
-  (* numpy.polynomial.legendre.leggauss, w(x) = 1 on [-1,1]: the arrays are passed through unchanged *)
-  Lemma legendre_wrapper_lemma :
-    forall p, pspan (2 * n - 1) p ->
-    rsum n (fun k => wts_GaussLegendre ox ow n k * p (pts_GaussLegendre ox n k)) = Iw p.
-  Proof.
-    intros p Hp. rewrite <- (oracle_exact p Hp). apply rsum_ext. intros k Hk.
-    unfold wts_GaussLegendre, pts_GaussLegendre, maybe_rev,
-      GaussLegendre_weights_reversed, GaussLegendre_points_reversed, GaussLegendre_weights. reflexivity.
-  Qed.
-
-  (* nodes are passed through in the library's order: ascending / in-domain are inherited *)
-  Lemma oracle_nodes_same k :
-    pts_GaussLegendre ox n k = ox k /\ pts_GaussChebyshevType2 ox n k = ox k /\ forall a, pts_GaussLaguerre ox a n k = ox k.
-  Proof. repeat split. Qed.
-End GaussOracle.
-
-(* Gauss-Legendre with the integral made explicit *)
-Lemma legendre_exact_lemma n (ox ow : nat -> R) :
-  (forall p, pspan (2 * n - 1) p -> is_RInt p (-1) 1 (rsum n (fun i => ow i * p (ox i)))) ->
-  forall p, pspan (2 * n - 1) p ->
-  is_RInt p (-1) 1 (rsum n (fun k => wts_GaussLegendre ox ow n k * p (pts_GaussLegendre ox n k))).
-Proof.
-  intros H p Hp. rewrite (legendre_wrapper_lemma n ox ow (fun q => rsum n (fun i => ow i * q (ox i)))); [apply H; exact Hp| |exact Hp].
-  intros; reflexivity.
-Qed.
-
-(* the oracle hypotheses are satisfiable: the 1-point Gauss-Legendre rule (x = 0, w = 2) is exact to degree 1 *)
-Example legendre_oracle_sat : forall p, pspan (2 * 1 - 1) p -> is_RInt p (-1) 1 (rsum 1 (fun i => 2 * p 0)).
-Proof.
-  intros p Hp. simpl rsum. rewrite Rplus_0_l.
-  assert (E : 2 * p 0 = rsum 1 (fun k => 2 * p 0)) by (simpl; ring).
-  rewrite E. apply (quad_exact_on_span 1 (2 * 1 - 1) (fun _ => 2) (fun _ => 0)); [|exact Hp].
-  intros m Hm. simpl rsum. assert (m = 0 \/ m = 1)%nat as [->| ->] by lia; unfold cheb_int; simpl; lra.
-Qed.
+Lemma gc_shape n k : (1 <= n)%nat -> (k < n)%nat ->
+  -1 <= pts_GaussChebyshev n k <= 1 /\ ((S k < n)%nat -> pts_GaussChebyshev n k < pts_GaussChebyshev n (S k)).
+Proof. rewrite !gc_pts_eq. apply f1_shape. Qed.
 
 (* the Gauss-Chebyshev theorem on a concrete instance: 2 points, T_2: sum = 0 *)
 Example gauss_chebyshev_2_T2 :
